@@ -11,6 +11,8 @@ import ThriftVerif.Facts.ExpectGen
 #print axioms ThriftVerif.Properties.C14.wire_equal_symm
 #print axioms ThriftVerif.Properties.C14.wire_equal_trans
 #print axioms ThriftVerif.Properties.C14.wire_equal_iff_same_logical_value
+#print axioms ThriftVerif.Properties.C14.towire_image_clean
+#print axioms ThriftVerif.Properties.C14.equals_iff_same_logical_value
 #print axioms ThriftVerif.Properties.C14.old_struct_rule_not_symmetric
 #print axioms ThriftVerif.Properties.C14.list_order_sensitive
 #print axioms ThriftVerif.Properties.C14.equals_iff_wire_equal
